@@ -33,6 +33,7 @@ type lFile struct {
 	reader *bufio.Reader
 	stdout io.ReadCloser
 	closed bool
+	std    bool // one of the process's standard streams: shared with the host and every other state
 }
 
 type lFileType int
@@ -186,6 +187,7 @@ func OpenIo(L *LState) int {
 
 	for _, finfo := range stdFiles {
 		file, _ := newFile(L, finfo.file, "", 0, os.FileMode(0), finfo.writable, finfo.readable)
+		file.Value.(*lFile).std = true
 		mod.RawSetString(finfo.name, file)
 	}
 	uv := L.CreateTable(2, 0)
@@ -258,6 +260,12 @@ errreturn:
 }
 
 func fileCloseAux(L *LState, file *lFile) int {
+	if file.std {
+		// closing it would close the descriptor for the whole process
+		L.Push(LNil)
+		L.Push(LString("cannot close standard file"))
+		return 2
+	}
 	file.closed = true
 	var err error
 	if file.writer != nil {
